@@ -161,27 +161,51 @@ Theorem C07_converged_iff : forall (P : alm_params) pb f0 g0 nanv Σ0 y0 script,
 Proof. exact run_converged_iff. Qed.
 Print Assumptions C07_converged_iff.
 
-(* ---- (8) Interrupted is returned immediately ---- *)
+(* ---- (8) Interrupted is returned immediately: no inner solve follows an Interrupted one, nor one after which ALM's own stop flag
+        (ir_stop: set by ALMSolver::stop(), read once per outer iteration after the inner solve) was set; the run returns Interrupted
+        exactly when the last inner solve was interrupted, or the flag was set after it and none of Converged / MaxTime / MaxIter applies ---- *)
 Theorem C07_interrupted_immediate : forall (P : alm_params) pb f0 g0 nanv Σ0 y0 script,
   p_max_iter P <> 0%nat -> pb_m pb <> 0%nat ->
   f_exhausted (snd (alm_run P pb f0 g0 nanv Σ0 y0 script)) = false ->
   exists (pre : list iter_rec) (r : iter_rec), fst (alm_run P pb f0 g0 nanv Σ0 y0 script) = pre ++ [r] /\
-    Forall (fun a => ir_status (it_res a) <> Interrupted) pre /\
-    (f_status (snd (alm_run P pb f0 g0 nanv Σ0 y0 script)) = Interrupted <-> ir_status (it_res r) = Interrupted).
+    Forall (fun a => ir_status (it_res a) <> Interrupted /\ ir_stop (it_res a) = false) pre /\
+    (f_status (snd (alm_run P pb f0 g0 nanv Σ0 y0 script)) = Interrupted <->
+     ir_status (it_res r) = Interrupted \/
+     (ir_stop (it_res r) = true /\ rec_conv P r = false /\ ir_oot (it_res r) = false /\ length (pre ++ [r]) <> p_max_iter P)).
 Proof. exact run_interrupted_immediate. Qed.
 Print Assumptions C07_interrupted_immediate.
 
-(* ---- (9) status selection Converged > MaxTime > MaxIter; no solve after an exit condition; Σ handed back = Σ last used ---- *)
+(* ---- (8') a stop request ends the run: the outer iteration after whose inner solve ALM's own flag is read as set is the LAST one
+        (whatever the inner solve returned, whatever follows in the history), and the status follows the ranking
+        Interrupted (inner) / Converged > MaxTime > MaxIter > Interrupted ---- *)
+Theorem C07_stop_request_ends_run : forall (P : alm_params) pb f0 g0 nanv Σ0 y0 script,
+  p_max_iter P <> 0%nat -> pb_m pb <> 0%nat ->
+  forall (pre : list iter_rec) (r : iter_rec) (post : list iter_rec),
+    fst (alm_run P pb f0 g0 nanv Σ0 y0 script) = pre ++ r :: post -> ir_stop (it_res r) = true ->
+    post = [] /\
+    let f := snd (alm_run P pb f0 g0 nanv Σ0 y0 script) in
+    f_exhausted f = false /\ f_outer f = S (length pre) /\
+    f_status f =
+      (if is_interrupted (ir_status (it_res r)) then Interrupted
+       else if rec_conv P r then Converged else if ir_oot (it_res r) then MaxTime
+       else if Nat.eqb (S (length pre)) (p_max_iter P) then MaxIter else Interrupted) /\
+    (f_status f = Converged \/ f_status f = MaxTime \/ f_status f = MaxIter \/ f_status f = Interrupted).
+Proof. exact run_stop_request_ends_run. Qed.
+Print Assumptions C07_stop_request_ends_run.
+
+(* ---- (9) status selection Converged > MaxTime > MaxIter > Interrupted (own flag); no solve after an exit condition; Σ handed back = Σ last used ---- *)
 Theorem C07_status_selection_and_sigma_out : forall (P : alm_params) pb f0 g0 nanv Σ0 y0 script,
   p_max_iter P <> 0%nat -> pb_m pb <> 0%nat ->
   f_exhausted (snd (alm_run P pb f0 g0 nanv Σ0 y0 script)) = false ->
   exists (pre : list iter_rec) (r : iter_rec), fst (alm_run P pb f0 g0 nanv Σ0 y0 script) = pre ++ [r] /\
     Forall (fun a => ir_status (it_res a) <> Interrupted /\ rec_conv P a = false /\ ir_oot (it_res a) = false /\
-                     S (it_i a) <> p_max_iter P) pre /\
+                     S (it_i a) <> p_max_iter P /\ ir_stop (it_res a) = false) pre /\
     let f := snd (alm_run P pb f0 g0 nanv Σ0 y0 script) in
     (ir_status (it_res r) <> Interrupted -> rec_conv P r = false ->
        (ir_oot (it_res r) = true -> f_status f = MaxTime) /\
-       (ir_oot (it_res r) = false -> f_status f = MaxIter /\ length (pre ++ [r]) = p_max_iter P)) /\
+       (ir_oot (it_res r) = false -> length (pre ++ [r]) = p_max_iter P -> f_status f = MaxIter) /\
+       (ir_oot (it_res r) = false -> length (pre ++ [r]) <> p_max_iter P ->
+          f_status f = Interrupted /\ ir_stop (it_res r) = true)) /\
     f_Sigma f = Some (it_Sigma r) /\ f_outer f = length (pre ++ [r]) /\
     f_y f = pick (pb_m pb) (ir_y (it_res r)) (it_y r) /\ f_norm_pen f = norm_penalty (it_Sigma r).
 Proof. exact run_status_selection. Qed.
@@ -264,9 +288,9 @@ Print Assumptions C07_gen_initial_sigma_is_model.
 Theorem C07_gen_termination_and_status_are_model : forall (P : alm_params (T:=R)) (r : iter_rec (T:=R)),
   (it_i r < p_max_iter P)%nat ->    (* holds for every outer iteration: C07_outer_iterations_and_stats *)
   rec_conv P r = g_alm_converged P (ir_eps (it_res r)) (g_inner_converged (ir_status (it_res r))) (it_norm r) /\
-  rec_exit P r = g_exit (rec_conv P r) (g_out_of_iter P (it_i r)) (ir_oot (it_res r)) /\
+  rec_exit P r = g_exit (rec_conv P r) (g_out_of_iter P (it_i r)) (ir_oot (it_res r)) (g_interrupted (ir_stop (it_res r))) /\
   rec_status P r = (if g_is_interrupted (ir_status (it_res r)) then Interrupted
-                    else g_exit_status (rec_conv P r) (ir_oot (it_res r)) (g_out_of_iter P (it_i r))).
+                    else g_exit_status (rec_conv P r) (ir_oot (it_res r)) (g_out_of_iter P (it_i r)) (g_interrupted (ir_stop (it_res r)))).
 Proof. exact (fun P r Hi => conj (rec_conv_is_generated P r) (conj (rec_exit_is_generated P r Hi) (rec_status_is_generated P r Hi))). Qed.
 Print Assumptions C07_gen_termination_and_status_are_model.
 
@@ -308,6 +332,16 @@ Theorem C07_gen_inner_options :
    has "tolerance" "params.tolerance" g_opts_m0 && has "check" "false" g_opts_m0 = true).
 Proof. exact (conj gen_opts_loop_spec gen_opts_m0_spec). Qed.
 Print Assumptions C07_gen_inner_options.
+
+(* ALMSolver::stop() as written in outer/alm.hpp sets ALM's own flag and forwards to the inner solver; the generated read of the flag
+   (`bool interrupted = stop_signal.stop_requested();`, which the translator requires to sit after the inner solve and after the
+   Interrupted-inner return, before the exit test) is the flag itself *)
+Theorem C07_gen_stop_sets_own_flag_and_forwards :
+  (existsb (fun kv => String.eqb (fst kv) "stop_signal.stop()") g_stop_body &&
+   existsb (fun kv => String.eqb (fst kv) "inner_solver.stop()") g_stop_body = true) /\
+  (forall flag : bool, g_interrupted flag = flag).
+Proof. exact (conj gen_stop_body_spec gen_interrupted_eq). Qed.
+Print Assumptions C07_gen_stop_sets_own_flag_and_forwards.
 Local Close Scope string_scope.
 
 (* ---- (12) G5: the five shipped InnerStatsAccumulator operator+= bodies (coq/gen/StatsAcc.v): every final_* field keeps the
